@@ -609,6 +609,10 @@ func extractColumnsFromExpr(ident string, expr sqlparser.Expr) (bool, string, st
 			colName := strings.Split(e.Name.String(), ".")
 			if !e.Qualifier.IsEmpty() {
 				colName = append([]string{e.Qualifier.Name.String()}, colName...)
+				// a.b.c arrives as the column c of the table b of the schema a
+				if outer := e.Qualifier.Qualifier.String(); len(outer) > 0 {
+					colName = append([]string{outer}, colName...)
+				}
 			}
 
 			return ident == colName[0], colName[0], strings.Join(colName, "."), nil
